@@ -18,6 +18,7 @@ import (
 	"io"
 	"net/http"
 	"net/http/httptest"
+	"strings"
 	"sync"
 	"testing"
 	"time"
@@ -96,6 +97,43 @@ func (e *c25SysEndpoint) count(op string, lo, hi int64) (n int, idx map[uint64]i
 	return n, idx
 }
 
+// c25SysExec runs one statement through the node's HTTP API. Transient failures of a busy
+// machine (no leader for a moment, enqueue timeout) are retried for up to 90 s; every statement
+// of this workload inserts explicit primary keys, so a repeated attempt that fails with a
+// constraint error means the first attempt was applied.
+func c25SysExec(node *Node, stmt string) error {
+	deadline := time.Now().Add(90 * time.Second)
+	ambiguous := false
+	for {
+		res, err := node.Execute(stmt)
+		msg := ""
+		if err != nil {
+			msg = err.Error()
+		} else if strings.Contains(res, `"error"`) {
+			msg = res
+		}
+		if msg == "" {
+			return nil
+		}
+		if ambiguous && (strings.Contains(msg, "UNIQUE constraint failed") || strings.Contains(msg, "already exists")) {
+			return nil
+		}
+		m := strings.ToLower(msg)
+		transient := false
+		for _, p := range []string{"not leader", "leadership lost", "leadership transfer", "timeout waiting for leader",
+			"timed out enqueuing", "no leader", "leader not known", "connection refused", "connection reset", "eof"} {
+			if strings.Contains(m, p) {
+				transient = true
+			}
+		}
+		if !transient || time.Now().After(deadline) {
+			return fmt.Errorf("%s", msg)
+		}
+		ambiguous = true
+		time.Sleep(200 * time.Millisecond)
+	}
+}
+
 func TestVerifC25System(t *testing.T) {
 	rep := vfNewReport("C25", "large transactions through a real node (Store, raft, SQLite CDC hooks, cluster service/client, HTTP API) and the real cdc.Service with a recording endpoint: one transaction touching 30 000+ wide rows = one event group = one FIFO item of more than 10 MiB of JSON, followed by a small write, repeated with a snapshot in between; every row must be reported at least once. A round is non-trivial when its big POST exceeds 8 MiB; distinct by sizes")
 	defer rep.Write()
@@ -126,7 +164,7 @@ func TestVerifC25System(t *testing.T) {
 	if err := node.Store.EnableCDC(svc.C(), nil, false); err != nil {
 		t.Fatalf("EnableCDC: %v", err)
 	}
-	if _, err := node.Execute(`CREATE TABLE t (id INTEGER NOT NULL PRIMARY KEY, v TEXT)`); err != nil {
+	if err := c25SysExec(node, `CREATE TABLE t (id INTEGER NOT NULL PRIMARY KEY, v TEXT)`); err != nil {
 		t.Fatalf("create: %v", err)
 	}
 
@@ -155,16 +193,16 @@ func TestVerifC25System(t *testing.T) {
 		kind := "INSERT"
 		stmt := fmt.Sprintf(`WITH RECURSIVE c(x) AS (SELECT %d UNION ALL SELECT x+1 FROM c WHERE x<%d) INSERT INTO t(id,v) SELECT x, printf('%%0%dd', x) FROM c`, lo, hi, width)
 		trace = append(trace, fmt.Sprintf("tx: insert rows %d..%d, %d bytes of text each", lo, hi, width))
-		if res, err := node.Execute(stmt); err != nil {
-			t.Fatalf("big insert: %v %s", err, res)
+		if err := c25SysExec(node, stmt); err != nil {
+			t.Fatalf("big insert: %v", err)
 		}
 		if round%2 == 0 {
 			// let the batcher's delay timer fire: the small write travels in a batch of its own
 			time.Sleep(5 * cfg.MaxBatchDelay)
 			trace = append(trace, "pause > MaxBatchDelay")
 		}
-		if res, err := node.Execute(fmt.Sprintf(`INSERT INTO t(id,v) VALUES(%d,'small')`, small)); err != nil {
-			t.Fatalf("small insert: %v %s", err, res)
+		if err := c25SysExec(node, fmt.Sprintf(`INSERT INTO t(id,v) VALUES(%d,'small')`, small)); err != nil {
+			t.Fatalf("small insert: %v", err)
 		}
 		trace = append(trace, fmt.Sprintf("write: insert row %d", small))
 		rep.Count("big-transactions")
@@ -173,8 +211,8 @@ func TestVerifC25System(t *testing.T) {
 		// the small write behind the big one is delivered promptly on a healthy node; once it
 		// has been, the HWM has passed the big transaction: whatever of it has not arrived by
 		// now never will (the wait below is generous for the big POST itself)
-		nS, idxS := wait(kind, small, small, 60*time.Second)
-		nB, idxB := wait(kind, lo, hi, 15*time.Second)
+		nS, idxS := wait(kind, small, small, 120*time.Second)
+		nB, idxB := wait(kind, lo, hi, 30*time.Second)
 		replay := map[string]interface{}{"trace": append([]string(nil), trace...), "batch_size": cfg.MaxBatchSz}
 		if nS != 1 {
 			rep.Fail("lost:small-write-after-large-transaction:real-node", fmt.Sprintf("row %d (written after a %d-row transaction) never reached the endpoint", small, rows), replay)
@@ -215,13 +253,13 @@ func TestVerifC25System(t *testing.T) {
 			}
 			// an UPDATE of a slice of the big rows: before and after images
 			ulo, uhi := lo, lo+rows/2
-			if res, err := node.Execute(fmt.Sprintf(`UPDATE t SET v = v || 'u' WHERE id BETWEEN %d AND %d`, ulo, uhi)); err != nil {
-				t.Fatalf("update: %v %s", err, res)
+			if err := c25SysExec(node, fmt.Sprintf(`UPDATE t SET v = v || 'u' WHERE id BETWEEN %d AND %d`, ulo, uhi)); err != nil {
+				t.Fatalf("update: %v", err)
 			}
 			trace = append(trace, fmt.Sprintf("tx: update rows %d..%d", ulo, uhi))
 			m := next
 			next++
-			if _, err := node.Execute(fmt.Sprintf(`INSERT INTO t(id,v) VALUES(%d,'marker')`, m)); err != nil {
+			if err := c25SysExec(node, fmt.Sprintf(`INSERT INTO t(id,v) VALUES(%d,'marker')`, m)); err != nil {
 				t.Fatalf("marker: %v", err)
 			}
 			wait("INSERT", m, m, 120*time.Second)
